@@ -24,13 +24,12 @@ inductive Err
   | maxOccurs         -- XMLChildContainerMaxOccursError
   | anotherChosen     -- XMLChildContainerChoiceHasAnotherChosenChild
   | notAChild         -- ValueError from remove / replace_child of a non-child
-  | indexError        -- IndexError: `forward` outside the same-name leaves (internal)
-  | unmodelled        -- outside the modelled envelope (forward on a populated RootChoice)
+  | unmodelled        -- outside the modelled envelope (unused since the forward paths are modelled)
   deriving DecidableEq, Repr
 
 def Err.str : Err → String
   | .wrongElement => "wrongElement" | .maxOccurs => "maxOccurs" | .anotherChosen => "anotherChosen"
-  | .notAChild => "notAChild" | .indexError => "internal:IndexError" | .unmodelled => "unmodelled"
+  | .notAChild => "notAChild" | .unmodelled => "unmodelled"
 
 /-- shape classes -/
 def isUnitLeaf : Particle → Bool
@@ -75,26 +74,48 @@ def fwdOk : Option Int → Bool
   | none => true
   | some i => i == 0 || i == -1
 
+/-- Python index normalisation into a list of length `n` -/
+def pyIndex (i : Int) (n : Nat) : Option Nat :=
+  let j : Int := if i < 0 then i + n else i
+  if j < 0 || j ≥ n then none else some j.toNat
+
+/-- a forwarded add on a *populated* RootChoice never succeeds: there is one leaf per (copy of
+    the) choice and each copy holds one child, so the forwarded leaf is full (same name) or belongs
+    to another branch; an index outside the copies is 'Wrong forwarding' as well -/
+def fwdErrChoice (ma : Option Nat) (k : Kids) (n : Nat) (f : Int) : Err :=
+  match ma with
+  | none =>
+    (match pyIndex f k.length with
+      | some j => if (names k)[j]? == some n then .maxOccurs else .anotherChosen
+      | none => .anotherChosen)
+  | some _ =>
+    if !fwdOk (some f) then .anotherChosen
+    else (match k with
+      | (_, m) :: _ => if m == n then .maxOccurs else .anotherChosen
+      | [] => .anotherChosen)
+
 /-- add_child on a checked element -/
 def add (p : Particle) (k : Kids) (cid n : Nat) (fwd : Option Int := none) : Except Err Kids :=
   if isFlat p then
     match maxOf p n with
     | none => .error .wrongElement
     | some ma =>
-      if !fwdOk fwd then .error .indexError
+      if !fwdOk fwd then .error .anotherChosen     -- 'Wrong forwarding'
       else if leMax (count k n + 1) ma then .ok (k ++ [(cid, n)]) else .error .maxOccurs
   else
     match p with
     | .choice _ ma _ =>
       if !p.leaves.contains n then .error .wrongElement
-      else if fwd.isSome && !k.isEmpty then .error .unmodelled
-      else if !fwdOk fwd then .error .indexError
-      else match ma with
-        | none => .ok (k ++ [(cid, n)])
-        | some _ =>   -- RootChoice 1..1
-          match k with
-          | [] => .ok [(cid, n)]
-          | (_, m) :: _ => if m == n then .error .maxOccurs else .error .anotherChosen
+      else match fwd, k with
+        | some f, _ :: _ => .error (fwdErrChoice ma k n f)
+        | _, _ =>
+          if !fwdOk fwd then .error .anotherChosen
+          else match ma with
+            | none => .ok (k ++ [(cid, n)])
+            | some _ =>   -- RootChoice 1..1
+              match k with
+              | [] => .ok [(cid, n)]
+              | (_, m) :: _ => if m == n then .error .maxOccurs else .error .anotherChosen
     | _ => .error .wrongElement
 
 def remove (k : Kids) (cid : Nat) : Except Err Kids :=
